@@ -63,6 +63,10 @@ const Goldilocks::Element Goldilocks::SHIFT = Goldilocks::fromU64(7);
 */
 void Goldilocks::parcpy(Element *dst, const Element *src, uint64_t size, int num_threads_copy)
 {
+    if (size == 0)
+    {
+        return; // nothing to copy; also keeps the loop increment below non-zero (OpenMP canonical loop form)
+    }
     if (num_threads_copy < 1)
     {
         num_threads_copy = 1;
@@ -83,7 +87,10 @@ void Goldilocks::parcpy(Element *dst, const Element *src, uint64_t size, int num
 
 void Goldilocks::parSetZero(Element *dst, uint64_t size, int num_threads_copy)
 {
-
+    if (size == 0)
+    {
+        return; // nothing to clear; also keeps the loop increment below non-zero (OpenMP canonical loop form)
+    }
     if (num_threads_copy < 1)
     {
         num_threads_copy = 1;
